@@ -5,6 +5,7 @@ import (
 	"fmt"
 	"net"
 	"os"
+	"os/exec"
 	"path/filepath"
 	"reflect"
 	"strings"
@@ -26,8 +27,9 @@ type fileState struct {
 	name  [2]string // per protocol (0 = v4, 1 = v6)
 	h4    handler.Handler4
 	h6    handler.Handler6
-	auto  [2]bool
-	nfile int
+	auto    [2]bool
+	watched [2]string // the file the serving instance of each protocol was set up on
+	nfile   int
 }
 
 func (s *fileState) close() {
@@ -81,6 +83,9 @@ func tablePtr(v6 bool) uintptr {
 func (s *fileState) exec(c *ctx, op string) string {
 	f := strings.Fields(op)
 	switch f[0] {
+	case "freset": // a fresh process: nothing is set up
+		c.emit(op, "ok")
+		return "ok"
 	case "fsetup": // fsetup <4|6> <auto 0|1> <contenthex>
 		v6 := f[1] == "6"
 		pi := b2i(v6)
@@ -116,8 +121,14 @@ func (s *fileState) exec(c *ctx, op string) string {
 				s.h4 = h
 			}
 			s.auto[pi] = f[2] == "1"
+			s.watched[pi] = s.name[pi]
 			return "ok"
 		})
+		if res != "ok" {
+			// start-up would have been aborted: the instance that keeps serving is the previous one,
+			// still watching (if at all) the previous file
+			s.name[pi] = s.watched[pi]
+		}
 		c.emit(op, lineOracle(content)+" ; "+res)
 		return res
 	case "fwrite": // fwrite <4|6> <contenthex> : rewrite the watched file, wait for the refresh
@@ -282,8 +293,9 @@ func genFile(c *ctx) {
 			return net.HardwareAddr(m).String()
 		}
 	}
-	for c.count < c.n {
-		s := &fileState{}
+	var pending []string
+	npending, planned := 0, 0
+	for planned < c.n {
 		// a small population of hardware addresses so that duplicates and lookups hit
 		var macs [][]byte
 		for i := 0; i < 5; i++ {
@@ -330,6 +342,10 @@ func genFile(c *ctx) {
 					sb.WriteString("\n")
 				case 1:
 					sb.WriteString("# a comment 00:11:22:33:44:55 1.2.3.4\n")
+					if c.rng.Intn(12) == 0 {
+						// a very long (legal) comment line, beyond any line-buffer default
+						sb.WriteString("#" + strings.Repeat("x", 66000+c.rng.Intn(4000)) + "\n")
+					}
 				default:
 					m := macs[c.rng.Intn(len(macs))]
 					ip := fmt.Sprintf("10.0.%d.%d", c.rng.Intn(3), 1+c.rng.Intn(250))
@@ -354,37 +370,68 @@ func genFile(c *ctx) {
 			return []byte(out)
 		}
 		kinds := []string{"4", "6", "46", "64"}[c.rng.Intn(4)]
-		okAny := false
+		var hist []string
 		for _, k := range kinds {
 			v6 := k == '6'
 			auto := c.rng.Intn(2)
-			res := s.exec(c, fmt.Sprintf("fsetup %c %d %s", k, auto, hx(mkFile(v6, c.rng.Intn(6) == 0))))
-			if res == "ok" {
-				okAny = true
-			}
+			hist = append(hist, fmt.Sprintf("fsetup %c %d %s", k, auto, hx(mkFile(v6, c.rng.Intn(6) == 0))))
 		}
-		if okAny {
-			steps := 6 + c.rng.Intn(14)
-			for i := 0; i < steps && c.count < c.n; i++ {
-				switch c.rng.Intn(8) {
-				case 0:
-					k := kinds[c.rng.Intn(len(kinds))]
-					s.exec(c, fmt.Sprintf("fwrite %c %s", k, hx(mkFile(k == '6', c.rng.Intn(3) == 0))))
-				case 1, 2, 3:
-					m := macs[c.rng.Intn(len(macs))]
-					if c.rng.Intn(6) == 0 {
-						m = []byte{9, 9, 9, 9, 9, 9}
-					}
-					s.exec(c, "fq4 "+hx(m))
-				default:
-					m := hx(macs[c.rng.Intn(len(macs))])
-					if c.rng.Intn(8) == 0 {
-						m = "-"
-					}
-					s.exec(c, fmt.Sprintf("fq6 %s %d %d", m, b2i(c.rng.Intn(5) != 0), c.rng.Intn(3)/2))
+		steps := 6 + c.rng.Intn(14)
+		for i := 0; i < steps; i++ {
+			switch c.rng.Intn(8) {
+			case 0:
+				k := kinds[c.rng.Intn(len(kinds))]
+				hist = append(hist, fmt.Sprintf("fwrite %c %s", k, hx(mkFile(k == '6', c.rng.Intn(3) == 0))))
+			case 1, 2, 3:
+				m := macs[c.rng.Intn(len(macs))]
+				if c.rng.Intn(6) == 0 {
+					m = []byte{9, 9, 9, 9, 9, 9}
 				}
+				hist = append(hist, "fq4 "+hx(m))
+			default:
+				m := hx(macs[c.rng.Intn(len(macs))])
+				if c.rng.Intn(8) == 0 {
+					m = "-"
+				}
+				hist = append(hist, fmt.Sprintf("fq6 %s %d %d", m, b2i(c.rng.Intn(5) != 0), c.rng.Intn(3)/2))
 			}
 		}
-		s.close()
+		pending = append(pending, hist...)
+		npending++
+		planned += len(hist)
+		if npending >= 8 || planned >= c.n {
+			runFileGroup(c, pending)
+			pending, npending = nil, 0
+		}
+	}
+	if len(pending) > 0 {
+		runFileGroup(c, pending)
+	}
+}
+
+// runFileGroup executes a few histories in a fresh worker process: every autorefresh set-up
+// creates an inotify instance that the plugin never closes, and the per-user limit is 128
+func runFileGroup(c *ctx, ops []string) {
+	cmd := exec.Command(os.Args[0], "file", "-replay", "/dev/stdin")
+	ops = append([]string{"freset"}, ops...)
+	cmd.Stdin = strings.NewReader(strings.Join(ops, "\n") + "\n")
+	var ob bytes.Buffer
+	cmd.Stdout = &ob
+	done := make(chan error, 1)
+	go func() { done <- cmd.Run() }()
+	select {
+	case <-done:
+	case <-time.After(300 * time.Second):
+		cmd.Process.Kill()
+	}
+	got := 0
+	for _, l := range strings.Split(strings.TrimRight(ob.String(), "\n"), "\n") {
+		if i := strings.Index(l, " => "); i >= 0 {
+			c.emit(l[:i], l[i+4:])
+			got++
+		}
+	}
+	if got == 0 {
+		c.emit(ops[0], "CRASH")
 	}
 }
